@@ -2,7 +2,7 @@
     This file contains only the pinned statements; the model is Derive/DeriveModel.v, the proofs and
     the specification vocabulary ([shape_spec], [guar_nodes], [wf_nodes], [frame_nodes], [field_at],
     [names_disjoint]) are in Derive/DeriveProofs.v. *)
-From ClapModel Require Import Base.Bytes.
+From ClapModel Require Import Base.Bytes Base.Utf8.
 From ClapModel Require Import Parse.Cmd Parse.Matcher Parse.Errors Parse.Parser.
 From ClapModel Require Import Value.PossibleValues.
 From ClapModel Require Import Derive.DeriveModel Derive.DeriveProofs.
@@ -66,3 +66,32 @@ Theorem C15_value_enum_skipped : forall e i v,
   ve_to_possible_value e i = None /\ forall s ic, ve_from_str e s ic <> Some i.
 Proof. exact value_enum_skipped. Qed.
 Print Assumptions C15_value_enum_skipped.
+
+(** Printing a value and extracting from the matches of the printed line returns the value
+    (matches level; [ok_nodes]: per field the attribute combinations of [field_ok], scalars that print and
+    parse back, an optional flatten is Some only when its group is then present). *)
+Theorem C15_roundtrip : forall d vs m,
+  wf_nodes (d_nodes d) -> wfv_nodes (d_nodes d) -> ~ In (d_gid d) (level_ids (d_nodes d)) ->
+  ok_nodes (d_nodes d) vs ->
+  matches_of_print d vs = Some m ->
+  extract d m = XOk vs.
+Proof. exact roundtrip. Qed.
+Print Assumptions C15_roundtrip.
+
+(** ... one field, any shape. *)
+Theorem C15_roundtrip_field : forall f v g m,
+  field_ok f ->
+  Forall (srt (f_t f) (f_icase f)) (scalars v) ->
+  field_groups f v = Some g ->
+  fm_get (f_id f) (ms_args m) = fm_get (f_id f) (field_entry f g) ->
+  exists m', field_value f m = XOk (v, m').
+Proof. exact field_roundtrip. Qed.
+Print Assumptions C15_roundtrip_field.
+
+(** The scalar hypothesis [srt] holds for bool, String, u8 and (under distinct names) value enums.
+    (i64: decimal print/parse inversion is not proved; it is checked on every dround case.) *)
+Theorem C15_roundtrip_scalars_partial :
+  (forall ic x, srt TBool ic x) /\ (forall ic x, srt TStr ic x) /\ (forall ic x, srt TU8 ic x)
+  /\ (forall e ic x, names_disjoint ic e -> Forall (fun v => utf8_valid (pv_name (vv_pv v)) = true) e -> srt (TEnum e) ic x).
+Proof. exact scalars_roundtrip. Qed.
+Print Assumptions C15_roundtrip_scalars_partial.
